@@ -146,6 +146,7 @@ class C19(F.PropCheck):
         pad, primary = self.pad_for(rng, marks)
         if pad: evs = [('ADV', [pad], b'')] + evs; marks = [m + pad for m in marks]; t += pad
         boots = self.wrap_boots(rng, marks, max(t, 200000), rng.choice([2, 2, 3]), primary)
+        if cfg[1] > 0: boots = [-1] + boots                       # intervention run, see monitor_dev
         cfg = cfg[:16] + boots
         cfg[0] = 1
         return F.Case(cid, [('CFG', cfg, b'')] + evs, tags)
@@ -158,6 +159,7 @@ class C19(F.PropCheck):
         else: pad, primary = 0, 1000000 + self.PHASE
         if pad: evs = [('ADV', [pad], b'')] + evs; marks = [x + pad for x in marks]; t += pad
         boots = self.wrap_boots(rng, marks, max(t, 200000), rng.choice([2, 3]), primary)
+        if cfg[1] > 0 and ref1 == 1: boots = [-1] + boots        # intervention run, see monitor_dev
         cfg = cfg[:16] + boots; cfg[0] = ref1
         return F.Case(cid, [('CFG', cfg, b'')] + evs, tags)
     @staticmethod
@@ -214,9 +216,7 @@ class C19(F.PropCheck):
         for k in range(16):
             for _ in range(2): evs.append(('ADV', [20000000], b'')); t += 20000000
             evs.append(('SRV', [50, rr], bytes(16))); rr += 1; marks.append(t + 3000000)
-        # the 600 s cut-off is evaluated inside the 200 ms report block, so it inherits the report-grid anchor (10 ms shift between
-        # boot = 1 and boot = 1000001: root cause of the known finding, but a GPIO edge, i.e. outside its key): no boot < 200 ms here
-        return self.finish(rng, cid, cfg, evs, marks, t, ['dev', 'dev:rs-10min'], ref1=self.REF2)
+        return self.finish(rng, cid, cfg, evs, marks, t, ['dev', 'dev:rs-10min'])
 
     def gen_cfgbtn(self, rng, cid):
         """configuration button: hold >= CFG_BTN_PRESS_TIME (monostable, on hold) or 10 toggles within 2 s steps (bistable, on
@@ -320,7 +320,7 @@ class C19(F.PropCheck):
     def runs(self, outs):
         res = []; cur = None
         for o in outs:
-            if o[0] == 'RUN': cur = dict(boot=o[1][1], lines=[], zero=False, crash=False); res.append(cur)
+            if o[0] == 'RUN': cur = dict(boot=o[1][1], comp=(len(o[1]) > 2 and o[1][2] == 1), lines=[], zero=False, crash=False); res.append(cur)
             elif cur is None: continue
             elif o[0] == 'ZEROSAMPLE': cur['zero'] = True
             elif o[0] == 'RUNCRASH': cur['crash'] = True
@@ -366,25 +366,31 @@ class C19(F.PropCheck):
         if len(rs) < 2: return []
         nsh = case.evs[0][1][1] if len(case.evs[0][1]) > 1 else 0
         ref1 = rs[0]; v = []
-        ref2 = next((r for r in rs[1:] if r['boot'] == self.REF2), None)
+        refc = next((r for r in rs[1:] if r['comp']), None)
+        ref2 = next((r for r in rs[1:] if r['boot'] == self.REF2 and not r['comp']), None)
         if ref2 is None:
             # no second reference (hand-written case): everything is compared with the first run
             for r in rs[1:]:
-                if r['lines'] != ref1['lines']: v.append(self.describe(ref1, r)); break
+                if not r['comp'] and r['lines'] != ref1['lines']: v.append(self.describe(ref1, r)); break
             return v
         # runs with a wrap (or a large offset) against the reference whose counter is already past 200 ms at init
         for r in rs[1:]:
-            if r is ref2: continue
+            if r is ref2 or r['comp']: continue
             if r['lines'] != ref2['lines']: v.append(self.describe(ref2, r)); break
-        # boot = 1 against that reference: two runs without any wrap
+        # boot = 1 against that reference: two runs without any wrap.  Known finding rs-report-grid-anchor is decided by
+        # INTERVENTION: the boot = 1 run is repeated with rs_cfg->last_comm_time preset so that the first 200 ms report test
+        # passes at the first timer tick (what happens by itself when the counter is past 200 ms at init).  If that run is
+        # identical to the boot = 1000001 run, the whole difference — shifted reports and everything downstream of them:
+        # frames queued behind a report, frames dropped by the 2-slot call queue, keep-alive seconds, the 600 s cut-off that
+        # shares the 200 ms block — is caused by that one variable.  If not, what remains is another boot dependence.
         if ref1['lines'] != ref2['lines']:
-            msg = self.describe(ref1, ref2)
             below1 = ref1['boot'] + 10000 < 200000; below2 = ref2['boot'] + 10000 < 200000
-            if below1 != below2 and nsh > 0 and self.same_up_to_frame_shift(self.without_shutter_reports(ref1['lines'], nsh), self.without_shutter_reports(ref2['lines'], nsh)):
-                # known-finding class: NOT returned as an alarm (the framework's shrinker keeps "any alarm", it would
-                # shrink a genuine boot-dependence into this one); handed to the verdict logic by extra_quick()
-                self._grid_hits.setdefault(case.id, (case, msg + ' ' + self.GRID_TAG))
-            else: v.append(msg)
+            if below1 != below2 and nsh > 0 and refc is not None and refc['lines'] == ref2['lines']:
+                # NOT returned as an alarm (the framework's shrinker keeps "any alarm", it would shrink a genuine
+                # boot-dependence into this one); handed to the verdict logic by extra_quick()
+                self._grid_hits.setdefault(case.id, (case, self.describe(ref1, ref2) + ' ' + self.GRID_TAG))
+            elif refc is not None and nsh > 0: v.append('(not explained by the report-grid anchor) ' + self.describe(refc, ref2))
+            else: v.append(self.describe(ref1, ref2))
         return v
     _grid_hits = {}
     def extra_quick(self, ctx):
@@ -394,11 +400,9 @@ class C19(F.PropCheck):
         ctx['extra']['known_class_rs_report_grid_anchor_cases'] = sum(1 for (c, m) in ctx['alarms'] if self.GRID_TAG in m)
 
     def finding_key(self, case, what):
-        """rs-report-grid-anchor: two runs WITHOUT a wrap-around, one whose counter was below 200 ms at init and one whose
-        counter was not, whose traces are identical once the position reports (VALUE_CHANGED, call 100) of the shutter
-        channels are removed (rr numbering of the remaining frames ignored) — except that the send time of other frames
-        may shift by < 200 ms (they queue behind the reports).  GPIO edges, connection events, restarts, payloads and
-        order must be equal.  Anything else stays a violation."""
+        """rs-report-grid-anchor: the traces of the two wrap-free reference runs (boot = 1: counter below 200 ms at init;
+        boot = 1000001: not) differ, and the boot = 1 run repeated with rs_cfg->last_comm_time compensated (the variable the
+        finding names; see monitor_dev) is IDENTICAL to the boot = 1000001 run.  Anything else stays a violation."""
         return 'rs-report-grid-anchor' if self.GRID_TAG in what else None
 
 CHECK = C19()
